@@ -99,6 +99,11 @@ pub fn input_data_context_evaluator(input_data: &InputData) -> Result<InputDataC
     } else {
       Err(err_unsupported_feel_type(feel_type))
     }
+  } else if type_ref == "Any" {
+    Ok(Box::new(move |ctx: &mut FeelContext, _: &ItemDefinitionContextEvaluator| {
+      ctx.set_entry(&name, Value::FeelType(FeelType::Any));
+      FeelType::Any
+    }))
   } else {
     Ok(Box::new(move |ctx: &mut FeelContext, evaluator: &ItemDefinitionContextEvaluator| {
       evaluator.eval(&type_ref, &name, ctx)
